@@ -38,7 +38,8 @@ ASSUMPTIONS = [
     "a point is outside the property when the reference is undefined there (inf-inf, 0*inf, x/0, log of a negative, "
     "direction-dependent limits, ...) or when a plain double evaluation of the same formula deviates from the exact "
     "value (overflow of an intermediate, absorption): both are skipped and counted per reason",
-    "an exception raised by an op (Python scalar ZeroDivisionError / OverflowError / math domain error, ops that only "
+    "logsumexp / einsum on float64 arrays of valid shapes must return a value (an exception there is a violation); "
+    "everywhere else an exception raised by an op (Python scalar ZeroDivisionError / OverflowError / math domain error, ops that only "
     "accept arrays or only scalars, finfo of an integer array ...) is a decline; only a differing number, a NaN where "
     "the reference is defined, or a wrong result shape is a violation",
     "booleans are in the carrier only of and_/or_/xor and the comparisons; integers only where stated (Python bool/int "
@@ -48,6 +49,7 @@ ASSUMPTIONS = [
     "log-space einsum operands: finite entries of one operand lie in one band (base + k/4) with any subset of cells "
     "set to -inf; operands mixing +-700 inside one contracted slice exceed the dynamic range exp(+-745) of every "
     "per-operand-shift algorithm in double precision and are outside the carrier",
+    "no seeded data: the operand grid is fixed, VERIF_SEED does not influence anything",
     "float tolerance |a-b| <= 1e-9 + 1e-7|b| (tables, scalar-vs-array), 1e-12 (1+|b|) for the limit cases; infinities "
     "must match exactly; signed zeros are not distinguished",
 ]
@@ -320,12 +322,14 @@ class Tally:
         return d
 
 
-def _kind_combos(nleaves):
+def _kind_combos(nleaves, tier="thorough"):
     if nleaves <= 2:
         return list(itertools.product(TABLE_KINDS, repeat=nleaves))
-    # three leaves: all equal kinds, plus every combination of Python scalar / 0-d array (dispatch on mixed pairs)
+    # three leaves: all equal kinds, plus every combination of Python scalar / 0-d array (/ 1-d array in thorough):
+    # the dispatch of every op is decided by pairs of operand kinds
     combos = [(k,) * nleaves for k in TABLE_KINDS]
-    for c in itertools.product(("py", "arr0", "s2"), repeat=nleaves):
+    mixed = ("py", "arr0", "s2") if tier == "thorough" else ("py", "arr0")
+    for c in itertools.product(mixed, repeat=nleaves):
         if c not in combos:
             combos.append(c)
     return combos
@@ -341,8 +345,9 @@ def _expected_shape(kinds):
 
 def check_table(case):
     table, entry = case[1], case[2]
-    fixed = tuple(case[3:])  # restrict the leading leaves to one carrier value each (splits the big entries)
-    key = "table:%s:%s:%s" % (table, entry, "/".join(map(str, fixed)))
+    tier = case[3] if len(case) > 3 else "thorough"
+    fixed = tuple(case[4:])  # restrict the leading leaves to one carrier value each (splits the big entries)
+    key = "table:%s:%s:%s:%s" % (table, entry, tier, "/".join(map(str, fixed)))
     site = _site(table, entry)
     live = _live_tables()[table]
     if entry not in live:
@@ -382,7 +387,7 @@ def check_table(case):
             if st_l != "ok" or st_r != "ok":
                 tally.add("skipped:double-precision-artefact")
                 continue
-            for kinds in _kind_combos(len(point)):
+            for kinds in _kind_combos(len(point), tier):
                 leaves = [_leaf(k, v) for k, v in zip(kinds, point)]
                 for side, tree, expect in (("lhs", lhs, f_l), ("rhs", rhs, f_r)):
                     if tree[0] in ("L", "C"):
@@ -427,7 +432,7 @@ def _table_snippet(lhs, rhs, names, point, kinds, expect):
         lines.append("%s = %s" % (n, conv_code(k, [v] * ncells(k))))
     lines.append("print('lhs     ', %s)" % code(lhs, names))
     lines.append("print('rhs     ', %s)" % code(rhs, names))
-    lines.append("print('expected', %r)" % (expect,))
+    lines.append("print('expected', %s)" % R.token(expect))
     return "\n".join(lines) + "\n"
 
 
@@ -721,16 +726,22 @@ def check_lim_lse(case):
             x = np.float64(content[0])
         else:
             x = np.array(content, dtype=np.float64).reshape(shape)
+        oshape, expect = R.reduce_ref(content, shape, axes, keepdims, R.lse_fsum)
+        bad = None
         try:
             got = ops.logsumexp(x, axis, keepdims=keepdims)
         except Exception as ex:
-            tally.add("declined:" + type(ex).__name__)
-            continue
+            if form != "arr":
+                tally.add("declined:logsumexp:" + type(ex).__name__)
+                continue
+            # float64 arrays of a valid shape: the statement demands a value ("returns the exact limit")
+            got = math.nan
+            bad = ("raised", "raised %s: %s, reference %r" % (type(ex).__name__, str(ex)[:120], expect))
         tally.calls += 1
-        oshape, expect = R.reduce_ref(content, shape, axes, keepdims, R.lse_fsum)
         gshape, obs = flat_floats(got)
-        bad = None
-        if gshape != oshape:
+        if bad:
+            pass
+        elif gshape != oshape:
             bad = ("shape", "result shape %r, expected %r" % (gshape, oshape))
         else:
             for x_, e_ in zip(obs, expect):
@@ -843,15 +854,18 @@ def check_lim_einsum(case):
             tally.add("skipped:term-sum-order-dependent-in-double-precision")
             continue
         operands = [np.array(f, dtype=np.float64).reshape(s) for f, s in zip(flats, shapes)]
+        bad = None
         try:
             got = mod.einsum(eq, *operands)
         except Exception as ex:
-            tally.add("declined:" + type(ex).__name__)
-            continue
+            # float64 arrays of matching shapes: the statement demands a value ("returns the exact limit")
+            got = math.nan
+            bad = ("raised", "raised %s: %s, reference %r" % (type(ex).__name__, str(ex)[:120], expect))
         tally.calls += 1
         gshape, obs = flat_floats(got)
-        bad = None
-        if gshape != oshape:
+        if bad:
+            pass
+        elif gshape != oshape:
             bad = ("shape", "result shape %r, expected %r" % (gshape, oshape))
         else:
             for x_, e_ in zip(obs, expect):
@@ -902,6 +916,16 @@ def check_nonan(case):
     feats = {"op": opname, "last_operand": "python-number" if forms[-1] == "py" else "numpy"}
     v = sweep_forms(opname, forms, NONAN[opname], judge, key, site, case, tally, feats)
     if v is not None:
+        # report the simplest operand forms of the same class as the witness (stable artefact whatever case is
+        # merged first by the runner)
+        for cand in itertools.product(FORM_ORDER, repeat=len(forms)):
+            if cand == forms:
+                break
+            if (cand[-1] == "py") != (forms[-1] == "py"):
+                continue
+            w = sweep_forms(opname, cand, NONAN[opname], judge, key, site, ["nonan", opname] + list(cand), Tally(), feats)
+            if w is not None:
+                return w
         return v
     return core.ok(key, tally.compared > 0, "ok:" + site, transitions=tally.calls, counters=tally.counters())
 
@@ -915,9 +939,9 @@ def cases(tier):
     for t, n in table_entries():
         if t == "DISTRIBUTIVE_OPS" and R.knows(n.split(",")[0]) and R.knows(n.split(",")[1]):
             m = len(CARRIER_SETS[table_carrier(t, n)])
-            out.extend(["table", t, n, i, j] for i in range(m) for j in range(m))
+            out.extend(["table", t, n, tier, i, j] for i in range(m) for j in range(m))
         else:
-            out.append(["table", t, n])
+            out.append(["table", t, n, tier])
     from funsor import ops
 
     for opname in list(SVA_UNARY) + list(SVA_BINARY):
@@ -991,7 +1015,8 @@ def bounds(tier):
             "bool": [R.token(v) for v in R.GRID_BOOL],
         },
         "table_entries": tables,
-        "table_operand_kinds": list(TABLE_KINDS),
+        "table_operand_kinds": "1-2 operands: every combination of %s; 3 operands: %d combinations (all equal, plus every "
+        "mix of %s)" % (list(TABLE_KINDS), len(_kind_combos(3, tier)), "py/arr0/s2" if tier == "thorough" else "py/arr0"),
         "product_to_power_n": [0, 1, 2, 3, 4],
         "operand_forms": {k: ("python scalar" if k == "py" else "numpy scalar" if k == "np" else list(v)) for k, v in FORMS.items()},
         "scalar_vs_array_ops": {
